@@ -424,7 +424,75 @@ def eval_registry_warm(case):
     return _keyed(name, "warm", fails, controls)
 
 
-EVALS = {"hash": eval_hash, "ctx_hash": eval_ctx_hash, "ctx": eval_ctx, "sample": eval_sample, "setup": eval_setup, "registry": eval_registry, "registry_warm": eval_registry_warm}
+IMPORT_MODULES = ("passlib.apps", "passlib.hosts", "passlib.apache", "passlib.ext.django.utils", "passlib.registry")
+
+ORDER_SCRIPT = r"""
+import json, sys, warnings
+warnings.filterwarnings("ignore")
+order = sys.argv[1].split(",")
+import importlib
+for m in order:
+    importlib.import_module(m)
+sys.path.insert(0, sys.argv[2])
+from mc.checks import c17
+out = {}
+for cname, (obj, names) in c17.context_table().items():
+    try:
+        out[cname] = list(c17.get_context(cname).schemes())
+    except Exception as e:
+        out[cname] = "raises:" + type(e).__name__
+from passlib import registry
+out["registry.get_supported_os_crypt_schemes"] = list(registry.get_supported_os_crypt_schemes())
+print(json.dumps(out))
+"""
+
+
+@functools.lru_cache(None)
+def _schemes_under_order(order):
+    r = subprocess.run([sys.executable, "-c", ORDER_SCRIPT, ",".join(order), core.VERIF], capture_output=True, text=True,
+                       env=dict(os.environ, PYTHONHASHSEED="0"), timeout=600)
+    if r.returncode != 0:
+        raise core.HarnessError(f"import-order probe {order} failed: {r.stderr[-1500:]}")
+    return json.loads(r.stdout.strip().splitlines()[-1])
+
+
+def eval_import_order(case):
+    """the scheme list of every shipped context must not depend on the order in which passlib's modules are imported"""
+    order = tuple(case["order"])
+    base = _schemes_under_order(IMPORT_MODULES)
+    got = _schemes_under_order(order)
+    out = []
+    for cname in sorted(set(base) | set(got)):
+        if base.get(cname) != got.get(cname):
+            out.append((f"C17|import_order|schemes_differ:{cname}",
+                        f"{cname}: schemes {got.get(cname)!r} when importing {list(order)} but {base.get(cname)!r} when importing {list(IMPORT_MODULES)}"))
+    return out
+
+
+def eval_marker_plaintext(case):
+    """a plaintext entry that happens to start with a marker character is still this context's plaintext scheme's hash"""
+    cname, scheme, h = case["context"], case["scheme"], case["hash"]
+    ctx = get_context(cname)
+    schemes = list(ctx.schemes())
+    out = []
+    # a disabled-account scheme legitimately listed BEFORE the plaintext scheme may claim it (documented order rule)
+    before = schemes[: schemes.index(scheme)]
+    if any(b in ("unix_disabled", "django_disabled") for b in before) and not case.get("strict"):
+        return out
+    try:
+        got = ctx.identify(h)
+        if got != scheme:
+            out.append((f"C17|{cname}|identify:{scheme}:marker_led_claimed_by:{got}", f"{cname}.identify({h!r}) = {got!r}, it is a {scheme} entry"))
+        if not HS.handler(scheme).identify(h):
+            return out
+        if ctx.verify(h, h) is not True:
+            out.append((f"C17|{cname}|verify:{scheme}:marker_led:right_rejected", f"{cname}.verify({h!r}, {h!r}) is not True"))
+    except Exception as e:  # noqa: BLE001
+        out.append((f"C17|{cname}|marker_led:raises:{type(e).__name__}", f"raised {e!r} on {h!r}"))
+    return out
+
+
+EVALS = {"import_order": eval_import_order, "marker_plaintext": eval_marker_plaintext, "hash": eval_hash, "ctx_hash": eval_ctx_hash, "ctx": eval_ctx, "sample": eval_sample, "setup": eval_setup, "registry": eval_registry, "registry_warm": eval_registry_warm}
 
 
 def replay(case):
@@ -547,6 +615,18 @@ def run(ctx):
                               "via": "context_production", "seed": ctx.seed, "n": 9, "wrongs": False})
     if skipped:
         ctx.assume(f"schemes without a backend on this host are identify-only (fixed well-formed strings): {sorted(skipped)}")
+    # plaintext entries that begin with a disabled-account marker character
+    for cname, schemes in listed.items():
+        for sch in schemes:
+            if sch == "plaintext":
+                for n, h in enumerate(("*secret", "!secret", "**", "!x")):
+                    small.append({"part": "marker_plaintext", "context": cname, "scheme": sch, "hash": h, "n": n})
+    # import orders: every permutation of the modules that build the shipped contexts (fresh interpreter each)
+    import itertools
+
+    perms = list(itertools.permutations(IMPORT_MODULES[:4]))
+    for n, perm in enumerate(perms):
+        small.append({"part": "import_order", "order": list(perm) + ["passlib.registry"], "n": n})
     # registry
     reg = []
     vias = ("registry", "proxy", "import", "alias_upper", "alias_dash", "context")
